@@ -5,6 +5,7 @@
 package c14
 
 import (
+	"context"
 	"crypto/tls"
 	"encoding/base64"
 	"encoding/json"
@@ -16,6 +17,7 @@ import (
 
 	"github.com/hashicorp/nodeenrollment"
 	"github.com/hashicorp/nodeenrollment/protocol"
+	"github.com/hashicorp/nodeenrollment/registration"
 	nodetls "github.com/hashicorp/nodeenrollment/tls"
 	"github.com/hashicorp/nodeenrollment/types"
 	vclock "github.com/hashicorp/nodeenrollment/zz_verif/vclock"
@@ -37,12 +39,13 @@ type kase struct {
 }
 
 type world struct {
-	seed    int64
-	st      *harness.MemStore
-	honest  *harness.Enrolled
-	pending *harness.MemStore // node-side store of an unregistered node (fetch flow)
-	baseTLS *tls.Config
-	opts    []nodeenrollment.Option
+	seed      int64
+	st        *harness.MemStore
+	honest    *harness.Enrolled
+	pending   *harness.MemStore // node-side store of an unregistered node (fetch flow)
+	baseTLS   *tls.Config
+	opts      []nodeenrollment.Option
+	usedToken *harness.Token // an activation token that already enrolled a node
 }
 
 func newWorld(seed int64) *world {
@@ -57,6 +60,15 @@ func newWorld(seed int64) *world {
 	w.pending = harness.NewMemStore()
 	if err := harness.NodeCreds(harness.NewCertKey("KP", seed), harness.NewEncKey("EP", seed), harness.Bytes("np", 32)).Store(harness.Ctx, w.pending); err != nil {
 		panic(err)
+	}
+	// a token that has been used up
+	w.usedToken, err = harness.CreateToken(w.st, "used", seed)
+	if err != nil {
+		panic(err)
+	}
+	uk, ue := harness.NewCertKey("token-user", seed), harness.NewEncKey("token-user-enc", seed)
+	if resp, err := registration.FetchNodeCredentials(harness.Ctx, w.st, harness.SignedRequest(harness.Info(uk, ue, w.usedToken.Bytes), uk)); err != nil || !harness.HasCreds(resp) {
+		panic(fmt.Sprint("token enrollment failed: ", err))
 	}
 	// an application base TLS configuration with its own certificate
 	k := harness.NewCertKey("app", seed)
@@ -159,6 +171,30 @@ func (w *world) cases(c *engine.Ctx, emit func(kase)) {
 			rev[0], rev[len(rev)-1] = rev[len(rev)-1], rev[0]
 			emit(kase{Kind: "alpn", Protos: rev, Desc: name + " request, chunks out of order"})
 		}
+	}
+	// well-signed fetch requests whose nonce takes every shape the server dispatches on
+	kp, ep := harness.NewCertKey("KP", w.seed), harness.NewEncKey("EP", w.seed)
+	emptyTok, _ := proto.Marshal(&types.ServerLedActivationTokenNonce{})
+	halfTok, _ := proto.Marshal(&types.ServerLedActivationTokenNonce{Nonce: harness.Bytes("half", 32)})
+	nonces := map[string][]byte{
+		"unknown-activation-token": harness.ForgedToken(w.seed), "consumed-activation-token": w.usedToken.Bytes, "token-without-fields": append(emptyTok, 0x1a, 0x00),
+		"token-with-nonce-only": halfTok, "1-byte": {7}, "31-bytes": harness.Bytes("n31", 31), "33-bytes": harness.Bytes("n33", 33), "64-bytes": harness.Bytes("n64", 64), "4KiB": harness.Bytes("n4k", 4096),
+	}
+	for name, n := range nonces {
+		req := harness.SignedRequest(harness.Info(kp, ep, n), kp)
+		b, _ := proto.Marshal(req)
+		emit(kase{Kind: "alpn", Protos: chunks(prefixes["fetch"], b), Desc: "well-signed fetch request with nonce " + name})
+		// the same with sealed registration info attached (garbage and well-formed but foreign)
+		for wn, wi := range map[string][]byte{"garbage": []byte("not a blob"), "short-blob": {0x0a, 0x02, 0x01, 0x02}, "foreign-sealed": harness.SealRegistrationInfo(harness.Wrapper("someone-else", w.seed), kp.Pkix, n)} {
+			info := harness.Info(kp, ep, n)
+			info.WrappedRegistrationInfo = wi
+			b, _ := proto.Marshal(harness.SignedRequest(info, kp))
+			emit(kase{Kind: "alpn", Protos: chunks(prefixes["fetch"], b), Desc: "well-signed fetch request with nonce " + name + " and " + wn + " registration info"})
+		}
+		r2 := harness.SignedRequest(harness.Info(kp, ep, n), kp)
+		r2.RewrappedWrappingRegistrationFlowInfo, r2.RewrappingKeyId = []byte{0x0a, 0x01, 0x00}, w.honest.K.KeyId
+		b2, _ := proto.Marshal(r2)
+		emit(kase{Kind: "alpn", Protos: chunks(prefixes["fetch"], b2), Desc: "well-signed fetch request with nonce " + name + " and a malformed re-wrapped blob"})
 	}
 	emit(kase{Kind: "alpn", Protos: append(chunks(prefixes["fetch"], fetch), chunks(prefixes["auth"], auth)...), Desc: "fetch then auth request in one hello"})
 	emit(kase{Kind: "alpn", Protos: append(chunks(prefixes["auth"], auth), chunks(prefixes["fetch"], fetch)...), Desc: "auth then fetch request in one hello"})
@@ -293,7 +329,9 @@ func (w *world) one(k kase, r *engine.Report) (string, string) {
 	rs, err := harness.Serve(cfg, func(addr string) {
 		w.badClient(k, addr)
 		// follow-up: an honest node must still get through on the same listener
-		conn, e := protocol.Dial(harness.Ctx, w.honest.Store.Clone(), addr)
+		dctx, cancel := context.WithTimeout(harness.Ctx, 60*time.Second) // infrastructure guard only
+		defer cancel()
+		conn, e := protocol.Dial(dctx, w.honest.Store.Clone(), addr)
 		followErr = e
 		if conn != nil {
 			conn.Close()
@@ -407,7 +445,7 @@ func init() {
 	engine.Register(&engine.CheckDef{
 		ID:    "C14",
 		Level: "fault_enumeration",
-		Rule: "against the real InterceptingListener on a loopback socket, with and without an application base TLS configuration: ClientHello ALPN lists of 1-3 entries over the three library prefixes x suffixes {empty, shorter than the chunk header, header only, non-base64, random base64, three-digit header, hyphens, long}, honest fetch and authentication requests truncated at every length (quick: every third), padded to 20 KiB (>100 chunks), duplicated, with missing / reordered chunks, mixed prefixes; raw non-TLS byte strings (empty, HTTP, TLS record headers with truncated / oversized bodies, 1..64 seeded bytes); honest fetch and authentication handshakes dropped after the k-th client write / read for k = 0..12; every case is followed by an honest Dial on the same listener; " +
+		Rule: "against the real InterceptingListener on a loopback socket, with and without an application base TLS configuration: ClientHello ALPN lists of 1-3 entries over the three library prefixes x suffixes {empty, shorter than the chunk header, header only, non-base64, random base64, three-digit header, hyphens, long}, honest fetch and authentication requests truncated at every length (quick: every third), padded to 20 KiB (>100 chunks), duplicated, with missing / reordered chunks, mixed prefixes; well-signed fetch requests whose nonce is an unknown / consumed / field-less activation token or has an odd size, alone and with garbage, short, foreign-sealed or malformed re-wrapped registration info; raw non-TLS byte strings (empty, HTTP, TLS record headers with truncated / oversized bodies, 1..64 seeded bytes); honest fetch and authentication handshakes dropped after the k-th client write / read for k = 0..12; every case is followed by an honest Dial on the same listener; " +
 			"distinct_nontrivial counts cases (distinct by construction) after which the follow-up dial was attempted and judged",
 		Assumptions: []string{"peers that stall without closing are outside the quantifier (Accept handshakes synchronously by design)", "the application-supplied registration wrapper is wrapped in a length guard: robustness of go-kms-wrapping's aead wrapper against short ciphertexts is not the library's"},
 		Shards:      func(c *engine.Ctx) int { return 16 },
